@@ -4,7 +4,7 @@
 (* grid, as a state machine over its externally observable state:          *)
 (*                                                                         *)
 (*   cache    the set of tiles stored in the cache                         *)
-(*   fetched  the sequence of upstream requests issued so far              *)
+(*   fetched  the upstream requests issued for the last client request      *)
 (*                                                                         *)
 (* Actions are whole client requests (sequential composition of the        *)
 (* modules checked on their own: TileAddr for public->internal addresses,  *)
@@ -30,7 +30,7 @@ CONSTANTS G,          \* the grid (record, see Lattice)
           MS,         \* meta size <<mx, my>>
           Buf,        \* meta buffer in pixels
           Reqs,       \* set of map requests offered to the model checker
-          AddrMax     \* public tile addresses -1 .. AddrMax per axis are offered
+          Addrs       \* set of public tile addresses <<x, y, z>> offered to the model checker
 
 VARIABLES cache, fetched, last
 mvars == <<cache, fetched, last>>
@@ -55,30 +55,29 @@ Ensure(ts, c, f) ==
 TileReq(f, a) ==
   LET t == Internal(G, f, a) IN
   IF ~Offered(G, f) \/ t = NoTile
-    THEN /\ last' = [op |-> "tile", ok |-> FALSE, new |-> 0] /\ UNCHANGED <<cache, fetched>>
-    ELSE LET r == Ensure(<<t>>, cache, fetched) IN
+    THEN /\ last' = [op |-> "tile", ok |-> FALSE, new |-> 0] /\ fetched' = <<>> /\ UNCHANGED cache
+    ELSE LET r == Ensure(<<t>>, cache, <<>>) IN
          /\ cache' = r[1] /\ fetched' = r[2]
-         /\ last' = [op |-> "tile", ok |-> TRUE, new |-> Len(r[2]) - Len(fetched)]
+         /\ last' = [op |-> "tile", ok |-> TRUE, new |-> Len(r[2])]
 
 \* map request contained in the grid bbox: level = closest_level, tiles = affected tiles (row-major from the top)
 MapReqAt(q, l) ==
   LET a == Affected(G, <<q[1], q[2], q[3], q[4]>>, l)
-      r == Ensure(a.tiles, cache, fetched)
+      r == Ensure(a.tiles, cache, <<>>)
   IN /\ cache' = r[1] /\ fetched' = r[2]
-     /\ last' = [op |-> "map", ok |-> TRUE, new |-> Len(r[2]) - Len(fetched)]
+     /\ last' = [op |-> "map", ok |-> TRUE, new |-> Len(r[2])]
 MapReq(q) ==
   /\ Contained(G.bbox, q)
   /\ IF NoTiles(G, q)
-       THEN last' = [op |-> "map", ok |-> FALSE, new |-> 0] /\ UNCHANGED <<cache, fetched>>
+       THEN last' = [op |-> "map", ok |-> FALSE, new |-> 0] /\ fetched' = <<>> /\ UNCHANGED cache
        ELSE \E l \in ExpectedLevels(G, q) : MapReqAt(q, l)
 
 CleanupLevel(l) ==
-  /\ cache' = {t \in cache : t[3] # l} /\ UNCHANGED fetched
+  /\ cache' = {t \in cache : t[3] # l} /\ fetched' = <<>>
   /\ last' = [op |-> "cleanup", ok |-> TRUE, new |-> 0]
 
-PublicAddrs == {<<x, y, l>> : x \in -1 .. AddrMax, y \in -1 .. AddrMax, l \in -1 .. NLevels(G)}
 MNext ==
-  \/ \E f \in Flavours, a \in PublicAddrs : TileReq(f, a)
+  \/ \E f \in Flavours, a \in Addrs : TileReq(f, a)
   \/ \E q \in Reqs : MapReq(q)
   \/ \E l \in Levels(G) : CleanupLevel(l)
 MSpec == MInit /\ [][MNext]_mvars
@@ -91,9 +90,9 @@ MetaClosed == \A t \in cache : MetaTilesOf(t) \subseteq cache
 FetchesAreMetaTiles == \A i \in 1 .. Len(fetched) :
     \E t \in AllTiles : fetched[i] = UpReq(t)
 \* a request that was refused changed nothing; a request never fetches a meta tile whose tiles are all cached
-RefusedNoEffect == [][last'.ok = FALSE => UNCHANGED <<cache, fetched>>]_mvars
-FetchOnlyMissing == [][\A i \in Len(fetched) + 1 .. Len(fetched') :
+RefusedNoEffect == [][last'.ok = FALSE => (cache' = cache /\ fetched' = <<>>)]_mvars
+FetchOnlyMissing == [][\A i \in 1 .. Len(fetched') :
                           \E t \in AllTiles : fetched'[i] = UpReq(t) /\ ~(MetaTilesOf(t) \subseteq cache)]_mvars
 \* within one request no meta tile is fetched twice
-NoDoubleFetch == [][\A i, j \in Len(fetched) + 1 .. Len(fetched') : i # j => fetched'[i] # fetched'[j]]_mvars
+NoDoubleFetch == \A i, j \in 1 .. Len(fetched) : i # j => fetched[i] # fetched[j]
 =============================================================================
